@@ -413,6 +413,32 @@ func buildReport(id string, w *World, opts *RunOpts, results []*FuncResult, all 
 			failedNamed = append(failedNamed, n)
 		}
 	}
+	// vacuity guard: every post `A ==> B` of a verified contract has A reachable
+	vacuous := []string{}
+	for _, r := range results {
+		if r == nil || r.AnteSeen == nil {
+			continue
+		}
+		for _, nm := range sortedStrKeys(r.AnteSeen) {
+			if r.AnteReached[nm] {
+				continue
+			}
+			reached := false
+			for _, n := range named {
+				if n.Name == nm+"@reachable" {
+					for _, q := range n.Queries {
+						if q.Res.Status == "sat" {
+							reached = true
+						}
+					}
+				}
+			}
+			if !reached && len(r.Errors) == 0 {
+				vacuous = append(vacuous, nm)
+				rep.lines = append(rep.lines, fmt.Sprintf("note: vacuous post %s (%s): its antecedent holds on no explored path", nm, r.AnteSeen[nm]))
+			}
+		}
+	}
 	// findings bookkeeping
 	knownSeen := []string{}
 	for _, f := range opts.Findings {
@@ -628,6 +654,7 @@ func buildReport(id string, w *World, opts *RunOpts, results []*FuncResult, all 
 	level := "proof"
 	cov := map[string]interface{}{
 		"known_finding_obligations":    knownObls,
+		"vacuous_posts":                vacuous,
 		"obligations":                  namedCount + extra.Count,
 		"discharged":                   namedDischarged + extra.Discharged,
 		"queries":                      nQueries,
@@ -662,4 +689,13 @@ func buildReport(id string, w *World, opts *RunOpts, results []*FuncResult, all 
 	}
 	rep.lines = append(rep.lines, fmt.Sprintf("%s: %d named obligations (%d queries), %d discharged, %d violations, %d undecided notes; tier=%s", id, namedCount+extra.Count, nQueries, namedDischarged+extra.Discharged, violations, len(undecided), opts.Tier))
 	return rep
+}
+
+func sortedStrKeys(m map[string]string) []string {
+	var ks []string
+	for k := range m {
+		ks = append(ks, k)
+	}
+	sort.Strings(ks)
+	return ks
 }
